@@ -147,6 +147,9 @@ PrCalls ==
        {[f |-> "print", args |-> <<Fm(fs), x>>, prior |-> p] : fs \in {"%s", "<%s>", "x%s", "%s.\n"}, x \in PrArgs, p \in PrPriors}
   \cup {[f |-> "print", args |-> <<Fm(fs), x, y>>, prior |-> p] : fs \in {"%s-%s", "a%sb%sc", "%s%s"}, x \in A, y \in PrArgs, p \in PrPriors}
   \cup {[f |-> "print", args |-> <<Fm("%sx%s%s"), x, y, z>>, prior |-> P(a, NoT, X)] : x \in A, y \in A, z \in PrArgsQ}
+  (* the format string reached through a variable (and through a chain of two) *)
+  \cup {[f |-> "print", args |-> <<X, y>>, prior |-> P(Fm(fs), NoT, NoT)] : fs \in {"%s", "<%s>", "x%s"}, y \in PrArgsQ}
+  \cup {[f |-> "print", args |-> <<Z, y, a>>, prior |-> P(Fm(fs), NoT, X)] : fs \in {"%s-%s", "a%sb%sc"}, y \in PrArgsQ}
   \cup {[f |-> "print", args |-> <<x>>, prior |-> p] : x \in PrArgs, p \in PrPriors}
   \cup {[f |-> "print", args |-> <<x, y>>, prior |-> p] : x \in PrArgs, y \in PrArgs, p \in PrPriors}
   \cup {[f |-> "print", args |-> <<x, y, z>>, prior |-> P(a, NoT, X)] : x \in A, y \in A, z \in A}
